@@ -73,6 +73,11 @@ CHECKS = {
     technique='runtime monitoring: repeated real update with WriteAudit (sys.addaudithook) + byte/mtime_ns/inode snapshots for idempotence; replica comparison under permuted os.walk order and permuted previous entry order for canonical output',
     text='idem: after a first update (library, CLI, CLI -t) a second one on the unchanged tree must produce no write-intent audit event and leave every Manifest with the same bytes, mtime_ns and inode. canon: 2..4 replicas of a tree whose previous Manifests list the same entries in different orders are updated with sort=True and forced rewrite under different directory enumeration orders; every Manifest file must be byte-identical across replicas (compressed bytes included).',
     note='Forced rewrites are excluded from the idempotence half. Canonical half needs <= 1 Manifest per directory. Known finding (shared with C03): same-Manifest duplicate entries.'),
+ 'C10': dict(
+    category='exploration', design='3 C10',
+    technique='runtime monitoring: WriteAudit (sys.addaudithook) over operation histories on one real loader incl. failing updates (loop, cross-device, injected I/O error, entry naming a directory) + full tree snapshots + offline conservation checker over Manifest lines read independently',
+    text='Histories of 3..8 operations (verify, lookups, update dir/path, save, discard) on one loader, and CLI updates with/without -t and compression options, are observed by an audit hook: no write-intent event may occur before a save, a save may only touch Manifest files, no other file may change in bytes/mtime/mode or appear/vanish. After saves that followed successful updates the multisets of DIST and IGNORE lines, the TIMESTAMP lines (unless the CLI whole-tree rule applies), the type of surviving file entries and every entry outside the updated directories (except MANIFEST entries on the chain, or anywhere after a forced save) must be conserved.',
+    note='Writes by child processes are invisible to the audit hook (snapshot comparison covers them). Conservation is not demanded for a save issued after an update that failed part-way, in directories with several Manifest-named files (U14), and out-of-scope comparison is skipped in trees with directory symlinks (aliased paths, U15).'),
 }
 
 def main():
